@@ -366,7 +366,8 @@ def run_case(case, R):
                 owner = world.schema
                 for k in sp:
                     owner = owner._fields[k]
-                new = cc.IntField(default=3)
+                # (the field object was created with a key of its own; the name it is attached under is what counts)
+                new = cc.IntField(default=3, key="made_as_%d" % rno) if len(sp) % 2 == 0 else cc.IntField(default=3)
                 setattr(owner, "zzlate%d" % rno, new)
                 late.append((".".join(sp + ("zzlate%d" % rno,)), new))
             for p, n in replaced:
@@ -389,5 +390,6 @@ def run_case(case, R):
                 except Exception as exc:
                     same = exc
                 R.check(same is new, "resolve", "after-extension", lambda: "schema[%r] is %r, the declared field is %r" % (dotted, same, new))
+                R.check(cc.item_ref_path(new) == dotted, "resolve", "ref-path:after-extension", lambda: "item_ref_path = %r for the field declared as %r" % (cc.item_ref_path(new), dotted))
                 R.check(dotted in dests2, "parser", "after-extension", lambda: "no option with destination %r in a parser generated after the field was declared" % dotted)
                 R.check(dotted in fresh, "resolve", "contains:after-extension", lambda: "%r not in a configuration built after the field was declared" % dotted)
